@@ -434,8 +434,8 @@ def processRow (F : Fn α) (e : EngineD α) : Option (RowResult α) := do
       pure (fz', acc.2 ++ [o])
     else pure (acc.1, acc.2 ++ [[]])) (fz0, [])
   let inputs := e.inputs.map (·.value)
-  let raw ← (e.outputs.zip fz).mapM (fun (ov, acts) =>
-    if ov.enabled then do pure (some (← defuzzRaw F inputs ov acts)) else pure none)
+  let raw ← e.outputs.zipIdx.mapM (fun (ov, i) =>
+    if ov.enabled then do pure (some (← defuzzRaw F inputs ov (fz.getD i []))) else pure none)
   pure { fuzzy := fz, rules := obs, raw := raw }
 
 /-! ## batch mode -/
